@@ -251,10 +251,22 @@ func init() {
 			return it.ctx.BV(uint64(n), 64)
 		},
 		zz + "Note": func(it *Interp, fr *frame, a []Value) Value { return nil },
-		// Flatten(v): every integer/bool scalar reachable through struct fields, arrays and
-		// pointers of v, in declaration order, as []uint64 (zero/sign-extended by width only).
+		zz + "AllocMark": func(it *Interp, fr *frame, a []Value) Value { it.allocTerms = nil; return nil },
+		// AllocWithin(limit): every input-dependent allocation since AllocMark is <= limit elements
+		zz + "AllocWithin": func(it *Interp, fr *frame, a []Value) Value {
+			c := it.ctx
+			r := c.True
+			for _, t := range it.allocTerms {
+				r = c.And(r, c.Ule(t, termArg(a[0])))
+			}
+			return r
+		},
+		// Flatten(v): every integer/bool scalar reachable through struct fields, arrays, slices,
+		// strings and pointers of v, in declaration order, as []uint64; pointers contribute a
+		// presence flag, slices and strings their length.
 		zz + "Flatten": func(it *Interp, fr *frame, a []Value) Value {
 			var out Slice
+			c := it.ctx
 			var walk func(v Value, depth int)
 			walk = func(v Value, depth int) {
 				if depth > 12 {
@@ -263,9 +275,9 @@ func init() {
 				switch v := v.(type) {
 				case *Term:
 					if v.w == 0 {
-						out = append(out, it.ctx.BoolToBV(v, 64))
+						out = append(out, c.BoolToBV(v, 64))
 					} else {
-						out = append(out, it.ctx.ZExt(v, 64))
+						out = append(out, c.ZExt(v, 64))
 					}
 				case Struct:
 					for _, f := range v {
@@ -276,8 +288,22 @@ func init() {
 						walk(f, depth+1)
 					}
 				case *Value:
-					if v != nil {
+					if v == nil {
+						out = append(out, c.BV(0, 64))
+					} else {
+						out = append(out, c.BV(1, 64))
 						walk(*v, depth+1)
+					}
+				case Slice:
+					out = append(out, c.BV(uint64(len(v)), 64))
+					for _, f := range v {
+						walk(f, depth+1)
+					}
+				case string, SymStr:
+					b := c.strBytes(v)
+					out = append(out, c.BV(uint64(len(b)), 64))
+					for _, t := range b {
+						out = append(out, c.ZExt(t, 64))
 					}
 				}
 			}
